@@ -3,9 +3,9 @@
    The model follows the source:
      fewer than 3 points -> GOOD, MISSING where the input is masked (returned before the time
      axis or the parameters are looked at);
-     time_interval = median(diff(tinp)) as timedelta64[ns], converted to whole seconds (floor);
+     time_interval = median(diff(tinp)) as timedelta64[ns], in (fractional) seconds;
      run_test(threshold, flag):
-        count        = trunc(int(threshold) / time_interval)
+        count        = trunc(threshold / time_interval)
         window       = rolling_window(inp, count): the len-count windows of count+1 consecutive
                        points (NaN = masked), none when len < count
         data_range   = |max - min| over the unmasked entries of each window (masked if none)
@@ -14,17 +14,17 @@
      run_test(suspect, SUSPECT); run_test(fail, FAIL); flag_arr[inp.mask] = MISSING.
 
    Domain / totalisation notes
-   * time_interval = 0 (sub-second or constant time axis): numpy divides by 0.0 (inf / nan), the
+   * time_interval = 0 (constant time axis): numpy divides by 0.0 (inf / nan), the
      cast to int gives INT64_MIN on this platform and rolling_window then raises ValueError
      ("negative dimensions").  The model returns Raises ValueError there; this is observed
-     behaviour of an undefined float -> int cast and lies outside the property's domain (D >= 1).
+     behaviour of an undefined float -> int cast and lies outside the property's domain (D > 0).
    * a negative count (negative threshold, or decreasing time axis) raises ValueError in
      rolling_window / np.min (observed for count = -1 and count <= -2).
    * the median is taken over the time array alone; the property's domain has
      length ts = length xs (a shorter ts is outside the model's domain: np.median of an empty
      array is NaT).
-   * float arithmetic: int(thr) / time_interval is a float quotient truncated toward zero; for the
-     magnitudes of the domain (integers far below 2^53) this is Z.quot. *)
+   * float arithmetic: thr / time_interval is a float quotient truncated toward zero; the generators keep the
+     step and the thresholds on a dyadic grid (steps k/4 s) on which the quotient is exact. *)
 From IoosQc Require Import Base.
 From Coq Require Import Qround.
 
@@ -51,18 +51,22 @@ Definition zmedian (l : list Z) : Z :=
   if Nat.even m then Z.quot (nth (m / 2 - 1) s 0%Z + nth (m / 2) s 0%Z) 2
   else nth (m / 2) s 0%Z.
 
-(* .astype("timedelta64[s]").astype(float): whole seconds, floor *)
-Definition median_step (ts : list Z) : Z := secs (zmedian (zdiffs ts)).
+(* the median sampling step, in nanoseconds; the code divides it by np.timedelta64(1, "s") to get (fractional)
+   seconds.  (Before the repair of F18 it was floored to whole seconds: .astype("timedelta64[s]").) *)
+Definition median_step (ts : list Z) : Z := zmedian (zdiffs ts).
+
+(* a step of d nanoseconds, in seconds *)
+Definition step_q (d : Z) : Q := inject_Z d / inject_Z NS.
 
 (* ---------------------------------------------------------------- thresholds -> counts *)
 
 (* Python int(x): truncation toward zero *)
 Definition qtrunc (x : Q) : Z := Z.quot (Qnum x) (Zpos (Qden x)).
 
-(* count = (int(thr) / time_interval).astype(int), for D <> 0: float quotient truncated toward
-   zero.  For thr >= 0 and D >= 1 this is floor(floor(thr) / D)  (FlatLineProofs.count_of_floor).
-   D = 0 is excluded by the model before count_of is used (Z.quot _ 0 = 0 is never reached). *)
-Definition count_of (thr : Q) (D : Z) : Z := Z.quot (qtrunc thr) D.
+(* count = (thr / time_interval).astype(int) with time_interval = d ns in seconds: the quotient truncated toward
+   zero.  For thr >= 0 and d > 0 this is floor(thr / D)  (FlatLineProofs.count_of_floor).
+   d = 0 is excluded by the model before count_of is used. *)
+Definition count_of (thr : Q) (d : Z) : Z := qtrunc (thr / step_q d).
 
 (* ---------------------------------------------------------------- window statistics *)
 
